@@ -190,3 +190,8 @@ func isMaskPattern(p string) bool {
 	}
 	return true
 }
+
+// isRegexText reports whether the pattern text is a /regular expression/.
+func isRegexText(p string) bool {
+	return len(p) > 1 && p[0] == '/' && p[len(p)-1] == '/'
+}
